@@ -4,7 +4,7 @@ from ..lockprops import make_jobs, replay_lock, run_lock_job
 
 ID = "C08"
 LEVEL = "exploration"
-PROFILE = {"garbage": 0.05, "ctl": 0.25, "semicolon": False, "sleep": True, "ota": True, "reload": 0.05, "unicode": 0.1}
+PROFILE = {"cbset": True, "garbage": 0.05, "ctl": 0.25, "semicolon": False, "sleep": True, "ota": True, "reload": 0.05, "unicode": 0.1}
 
 
 def jobs(tier, seed):
